@@ -278,6 +278,11 @@ func C15(c *hx.Ctx) {
 				if (ci+i)%2 == 0 {
 					st.input = xzUtilsEncode(plain, format)
 				}
+				if format == "xz" && (ci+i)%3 == 1 {
+					// a valid .xz file may consist of several streams with stream padding
+					h := len(plain) / 2
+					st.input = append(append(append(gxzEncode("xz", plain[:h]), 0, 0, 0, 0), gxzEncode("xz", plain[h:])...), make([]byte, 8)...)
+				}
 				if st.input == nil {
 					st.input = gxzEncode(format, plain)
 				}
@@ -444,6 +449,8 @@ func C15(c *hx.Ctx) {
 			c.Sample(map[string]any{"argv": argv, "predicted_exit": k.Exit, "outcomes": k.Outcomes})
 		}
 	})
+	// process-level behaviour (GxzMain): personalities, information options, standard input, special operands
+	c15Main(c, bin)
 	// preset round trips and xz-utils interoperability
 	plain := MakeData("alternating", 60000, c.Seed)
 	for _, format := range []string{"xz", "lzma"} {
